@@ -115,6 +115,21 @@ CONFIG_SCENARIOS = [
      "[mypy]\n[mypy-m]\ndisallow_untyped_defs = True\n", "[mypy]\n"),
     ("config:module-section-error-code", {"main.py": "import m\nx = 1 + ''\n", "m.py": "y = 1 + ''\n"},
      "[mypy]\n[mypy-m]\ndisable_error_code = operator\n", "[mypy]\n"),
+    # the import options of a dependency that cannot be found are compared separately from the importer's own options
+    ("config:missing-dependency-section", {"main.py": "import foo\nx: int = ''\n"},
+     "[mypy]\n[mypy-foo]\nignore_missing_imports = True\n", "[mypy]\n"),
+    ("config:missing-dependency-section+cache-fine-grained", {"main.py": "import foo\nx: int = ''\n"},
+     "[mypy]\ncache_fine_grained = True\n[mypy-foo]\nignore_missing_imports = True\n", "[mypy]\ncache_fine_grained = True\n"),
+    ("config:skipped-dependency-section", {"main.py": "import dep\nx: int = dep.f()\n", "dep.py": "def f() -> str: ...\n"},
+     "[mypy]\n[mypy-dep]\nfollow_imports = skip\n", "[mypy]\n"),
+    ("config:skipped-dependency-section+cache-fine-grained", {"main.py": "import dep\nx: int = dep.f()\n", "dep.py": "def f() -> str: ...\n"},
+     "[mypy]\ncache_fine_grained = True\n[mypy-dep]\nfollow_imports = skip\n", "[mypy]\ncache_fine_grained = True\n"),
+    # search-path options are not part of the options key: a module id that resolves to ANOTHER file of the same size
+    # and the same mtime second must be noticed through the file's path
+    ("config:mypy_path-same-size-same-mtime", {"main.py": "import mod\nx: int = mod.f()\n", "va/mod.py": "def f() -> int: ...\n", "vb/mod.py": "def f() -> str: ...\n"},
+     "[mypy]\nmypy_path = va\n", "[mypy]\nmypy_path = vb\n"),
+    ("config:mypy_path-same-size-same-mtime+sqlite-off", {"main.py": "import mod\nx: int = mod.f()\n", "va/mod.py": "def f() -> int: ...\n", "vb/mod.py": "def f() -> str: ...\n"},
+     "[mypy]\nsqlite_cache = False\nmypy_path = va\n", "[mypy]\nsqlite_cache = False\nmypy_path = vb\n"),
 ]
 
 
